@@ -2,6 +2,7 @@ package c04
 
 import (
 	"encoding/json"
+	"fmt"
 	"strings"
 	"testing"
 
@@ -184,7 +185,10 @@ func init() {
 }
 
 func checkRef(t run.TB, c RefCase) bool {
-	s, add := lib.Build(lib.Spec{Schema: c.Schema, Types: []lib.Named{{Name: "@t", Text: c.TypeText}}})
+	// @pet and @list: an object and an array type which reference forms may list next to @t (a
+	// literal example is never one of them)
+	s, add := lib.Build(lib.Spec{Schema: c.Schema, Types: []lib.Named{{Name: "@t", Text: c.TypeText},
+		{Name: "@pet", Text: "{\n  \"name\": \"Tom\"\n}"}, {Name: "@list", Text: "[1, 2]"}, {Name: "@tOrPet", Text: "@t | @pet"}}})
 	cr := lib.Check(s)
 	if add.Panic != "" || cr.Panic != "" {
 		run.Fail(t, chkRef, c, "panic: %v %v", add, cr)
@@ -218,8 +222,25 @@ func TestTypeRuleReference(t *testing.T) {
 			return // keep to types whose kind is fixed by the example
 		}
 		typeText := string(gen.PrintSchema(typ, nil))
+		form := rapid.SampledFrom([]int{0, 0, 1, 2, 3, 4, 5, 6}).Draw(t, "referenceForm")
 		mk := func(val *ref.SNode) (*ref.SNode, *ref.SNode) {
 			n := &ref.SNode{Kind: ref.SLit, Lit: val.Lit, Tok: val.Tok, Str: val.Str, Rules: []ref.SRule{gen.StrRule("type", "@t")}}
+			// the other ways of saying "a @t" (the example is a literal, so object and array types
+			// listed next to @t never admit it, and nullable only adds null)
+			switch form {
+			case 1:
+				n.Rules = []ref.SRule{gen.StrRule("type", "@t"), gen.BoolRule("nullable", true)}
+			case 2:
+				n.Rules = []ref.SRule{gen.BoolRule("nullable", true), gen.StrRule("type", "@t")}
+			case 3:
+				n.Rules = []ref.SRule{{Name: "or", ValKind: ref.RVOr, Or: []ref.OrItem{{Name: "@pet"}, {Name: "@t"}}}}
+			case 4:
+				n.Rules = []ref.SRule{{Name: "or", ValKind: ref.RVOr, Or: []ref.OrItem{{Rules: []ref.SRule{gen.StrRule("type", "@t"), gen.BoolRule("nullable", true)}}, {Name: "@list"}}}}
+			case 5:
+				n.Rules = []ref.SRule{gen.StrRule("type", "@tOrPet")}
+			case 6:
+				n.Rules = []ref.SRule{{Name: "or", ValKind: ref.RVOr, Or: []ref.OrItem{{Name: "@t"}, {Name: "@pet"}, {Name: "@list"}}}, gen.BoolRule("nullable", true)}
+			}
 			var root *ref.SNode
 			switch rapid.IntRange(0, 2).Draw(t, "wrap") {
 			case 0:
@@ -252,6 +273,7 @@ func TestTypeRuleReference(t *testing.T) {
 		checkRef(t, c2)
 		run.Eval(chkRef, true, schema2, typeText)
 		run.Label("ref-cnv:" + cor.Rule)
+		run.Label(fmt.Sprintf("ref-cnv:reference-form-%d", form))
 		run.Sample(chkRef, c2)
 	})
 }
